@@ -138,3 +138,10 @@ CHECKS["C19"] = dict(
     text="One regenerated client+server pair (regexp2-fallback and RE2 patterns, multipleOf, JSON / form / streaming bodies, parameters in all locations, validation failures through the default error handler, default response); jx's pools and regexp2's runner mutex are replaced by scheduler-aware shims (scratch copies of the modules, /repo untouched). 2 logical threads x every multiset of 2 calls from a menu of 8 (+ pool-drop deviation), preemption bound 2: 5.1e4 schedules, 9.9e4 states, 3.2e5 transitions, 2.9e6 scheduling points in the quick tier; thorough adds 3 threads, 2 calls per thread and bound 3. Every schedule is an execution of the implementation; oracle: each call's (handler-received arguments, response on the wire, value or error returned to the caller) equals the same call run alone, no deadlock. Harness determinism is proven per shard by double replay; violations are re-run 5x. The same bodies then run free under -race with GOMAXPROCS 1/2/4/16.",
     note="Exhaustive only at the hooked operations (transport entry/exit, every body Read with 7-byte short reads, WriteHeader/Write, handler entry, pool Get/Put before and after, mutex Lock/Unlock) and up to the preemption bound; steps between hooks are covered only by the sampling -race pass. sync.Pool is a deterministic LIFO plus one 'drop everything' deviation. No sockets, no net/http goroutines.",
 )
+
+CHECKS["C10"] = dict(
+    category="model_checking", engine="E3-sched",
+    technique="exhaustive enumeration of environment deviations (map iteration orders per dynamic range execution), preemption-bounded DFS over template-task schedules under a controlled scheduler, and all short histories of generations, each executed on the real generator; IR-immutability side condition by deep hashing; separate -race pass",
+    text="The generator of the tree under check is built with two overlay seams (/repo untouched): every range over a map / x/exp/maps call in the generator packages (74 static sites) asks the harness for its order, and gen/write.go's bufPool and errgroup are scheduler shims. (1) 13 programs are generated with 0 deviations, with every single deviation (each of the 12-453 dynamic range executions x 2-4 alternative orders) and every global order; ~3600 invalid single-fault mutants under 3 global orders: files and diagnostics must be byte-identical. (2) WriteSource under the controlled scheduler, errgroup limits 2/3/24, preemption bounds 0-2, state-key pruning over pcs and pool contents (full backing arrays): bytes per file equal the sequential run, no deadlock. (3) A deep identity-aware hash of the whole *gen.Generator is unchanged by WriteSource (licenses treating a template task as one step). (4) All sequences of <= 2 generations and the triples (a third in quick) over 7 programs in one process equal the fresh-process output. Then the free-running -race pass with GOMAXPROCS 1/2/4/16.",
+    note="Schedule explorations that reach their cap are reported with exhaustive:false and what was covered below the cap (one schedule costs ~50 ms because goimports spawns the go command per file). Only map ranges inside the rewritten packages are controlled; text/template and encoding/json sort on their own. Weak-memory effects are covered by the sampling race pass only.",
+)
